@@ -93,7 +93,11 @@ def subst_single_assign(A: Analysis, func: FuncInfo, expr):
             f = f.parent
         if not defs or len(defs) != 1 or defs[0][0] != 'assign':
             break
-        expr = defs[0][1]
+        v = defs[0][1]
+        if (isinstance(v, (ast.Dict, ast.List, ast.Set)) and not (getattr(v, 'keys', None) or getattr(v, 'elts', None))) or \
+                (isinstance(v, ast.Call) and src(v.func) in ('dict', 'list', 'set', 'defaultdict', 'OrderedDict') and all(src(a_) in ('dict', 'list', 'set') for a_ in v.args) and not v.keywords):
+            break   # an empty container that is filled later: the name, not its initial value, is what later code talks about
+        expr = v
         seen += 1
     return expr
 
